@@ -1364,6 +1364,8 @@ phases_init(int inplace) {
 	add_parse_op(&PH_DEEP, 9, 0);
 	add_set_ops(&PH_DEEP, 2, 2, "012", 3);
 	add_num_op(&PH_DEEP, OP_SET_UINT, 0, 1, 100);
+	add_num_op(&PH_DEEP, OP_SET_UINT, 0, 0, (int64_t)UINT64_MAX);	/* the ends of both integer types */
+	add_num_op(&PH_DEEP, OP_SET_INT, 1, 1, INT64_MIN);
 
 	/* mixed: everything, depth 3 */
 	PH_MIXED.name = "mixed";
@@ -1375,6 +1377,8 @@ phases_init(int inplace) {
 	add_num_op(&PH_MIXED, OP_SET_INT, 0, 0, -12);
 	add_num_op(&PH_MIXED, OP_SET_UINT, 1, 2, 100);
 	add_num_op(&PH_MIXED, OP_SET_INT, 1, 1, 0);
+	add_num_op(&PH_MIXED, OP_SET_UINT, 0, 1, (int64_t)(UINT64_C(1) << 63));
+	add_num_op(&PH_MIXED, OP_SET_INT, 1, 0, INT64_MAX);
 
 	/* mixed4 (thorough, asan): depth 4 over the mixed alphabet without the 17-byte value and without the
 	 * 62-blank-line snippet (46 operations): those two multiply the level-4 cost and stay covered at depth 3 */
